@@ -87,9 +87,14 @@ def _views(z):
     return [(v["page"], v["line_no"], v["zid"], v["body"]) for v in zreal.db_note_views(z)]
 
 
-def _judge(w, m, originals, cmd, rels):
+def _judge(w, m, originals, cmd, rels, uninterrupted=None):
     files = _files(w)
     idx = _views(w)
+    if uninterrupted is not None:
+        for n in (sorted(set(files) | set(uninterrupted)) if (cmd == "create" or not rels) else list(rels)):
+            a, b = files.get(n), uninterrupted.get(n)
+            if (a is None) != (b is None) or (a is not None and m.mask_new_zids(a) != m.mask_new_zids(b)):
+                return "page %s differs from what an uninterrupted run leaves: %r vs %r" % (n, a, b)
     with zreal.TempZdir("c13f") as f:
         shutil.copytree(w, f, dirs_exist_ok=True)
         zreal.create_db_subprocess(f, FREEZE)
@@ -139,8 +144,13 @@ def build_real_table(m, tier, seed):
     import concurrent.futures as cf
     from vlib import gen
     ntr = len(m.VALID) * len(m.VALID) * 4
-    stride = 50 if tier == "quick" else 1
+    stride = 150 if tier == "quick" else 1
     idxs = [i for i in range(ntr) if i % stride == seed % stride]
+    if stride > 1:
+        # ... plus, always, every per-page state next to an absent, unindexed second page under a plain `db reindex`
+        nv = len(m.VALID)
+        empty = m.VALID.index((0, 0, 0))
+        idxs = sorted(set(idxs) | {(a * nv + empty) * 4 + 0 for a in range(nv)})
     chunks = [idxs[i::16] for i in range(16)]
     logs = []
     with cf.ThreadPoolExecutor(max_workers=16) as ex:
@@ -167,7 +177,7 @@ def replayer(name, args, kwargs, meta):
         cmd = "create" if mode == 3 else "reindex"
         rels = [[], [m.NAMES[0]], [m.NAMES[1]], []][mode]
         why = crashreal.schedule(m.NAMES, m.TEXTS, (m.VALID[s0], m.VALID[s1]), (m.FILE_STATES, m.INDEX_STATES, m.HASH_STATES),
-                                 cmd, rels, k, bool(torn), m.strip_zids)
+                                 cmd, rels, k, bool(torn), m.strip_zids, m.mask_new_zids)
         states = (m.VALID[s0], m.VALID[s1])
         desc = "files=%r index=%r hash entries=%r; real `db %s%s` killed %s real effect %d, then the same command again" % (
             [m.TEXTS[j][m.FILE_STATES[s[0]]] for j, s in enumerate(states)],
@@ -192,6 +202,7 @@ def replayer(name, args, kwargs, meta):
         with zreal.TempZdir("c13n") as w:
             shutil.copytree(b, w, dirs_exist_ok=True)
             rc, n, log, err = _crashrun(w, -1, False, cmd, rels)
+            unint = _files(w)
         if rc != 0 or n is None:
             return False, {"summary": desc + ": the uninterrupted real run failed: " + err}
         for j in range(n):
@@ -206,7 +217,7 @@ def replayer(name, args, kwargs, meta):
                 if rc2 != 0:
                     why = "the re-run fails: " + err2.strip().splitlines()[-1][:300]
                 else:
-                    why = _judge(w, m, originals, cmd, rels)
+                    why = _judge(w, m, originals, cmd, rels, unint)
                 if why:
                     return True, {"summary": "%s, %s, then the same command again: %s" % (desc, where, why),
                                   "crash_effect": j, "effect_kind": log[j], "torn": bool(torn), "why": why}
@@ -260,7 +271,7 @@ def main():
     for lo in range(0, n_all, step):
         hi = min(n_all, lo + step)
         conds.append(xh.Cond(H, "converge", timeout=T, env=dict(env0, XH_N="%d-%d" % (lo, hi)),
-                             cc={"ranges": [[lo, hi]], "max": 300 if tier == "quick" else 800},
+                             cc={"ranges": [[lo, hi]], "max": 300 if tier == "quick" else 800, "replays": 1},
                              meta={"variant": "n[%d:%d]" % (lo, hi), "family": "converge",
                                    "no_replayer_selftest": lo not in (0, (n_atomic // step) * step),   # a real replay costs ~1 min
                                    "bound": "crash schedules %d..%d (%s)" % (lo, hi - 1, "atomic writes" if hi <= n_atomic else
@@ -274,7 +285,7 @@ def main():
     REAL_TABLE[:] = table
     stride = 1 if tier == "quick" else 2
     rep.note("real-run family: %d state triples (%s), %d schedules, every %s one run" % (
-        ntriples, "every 50th, rotated by the seed" if tier == "quick" else "all", len(table), "" if stride == 1 else "2nd"))
+        ntriples, "every 150th, rotated by the seed, plus every per-page state beside an empty second page" if tier == "quick" else "all", len(table), "" if stride == 1 else "2nd"))
     envr = {"XH_TABLE": tpath, "XH_STRIDE": stride, "XH_OFFSET": seed}
     rstep = max(1, (len(table) + 15) // 16)
     for lo in range(0, len(table), rstep):
